@@ -23,21 +23,8 @@ def showRes : Res → String
   | .pushed => "pushed" | .snapshot vs => "snap" ++ showVals vs | .cleared vs => "clr" ++ showVals vs
   | .empty b => s!"empty:{b}"
 
-/-- one granted step = one model step, except that the CAS of `clear_with` follows its tail load without a
-    yield point in the source: both happen in the grant of `bkt.clear.load_tail` -/
-def grant (s : Sys) (tid : Nat) : Sys :=
-  let s1 := step s tid
-  match s1.threads[tid]? with
-  | some t => (match t.pc with | .cCas _ => step s1 tid | _ => s1)
-  | none => s1
-
-/-- the model schedule behind a granted schedule: the thread id twice where `grant` takes the clear's CAS step -/
-def expand (s : Sys) (sched : List Nat) : List Nat :=
-  (sched.foldl (fun (acc : Sys × List Nat) tid =>
-      let s1 := step acc.1 tid
-      match s1.threads[tid]? with
-      | some t => (match t.pc with | .cCas _ => (step s1 tid, acc.2 ++ [tid, tid]) | _ => (s1, acc.2 ++ [tid]))
-      | none => (s1, acc.2 ++ [tid])) (s, [])).2
+/- one granted step = one model step: every PC of the step machine is a yield point of bucket.rs (the CAS of
+   `clear_with` is the point `bkt.clear.cas`), so the granted schedule IS the model schedule -/
 
 def handle (args : List String) : Option String :=
   match args with
@@ -46,14 +33,14 @@ def handle (args : List String) : Option String :=
     let b ← b.toNat?
     let progs ← listTok progTok progs
     let sched ← schedTok sched
-    pure s!"k1={k1Fold (init b progs) own0 0 (expand (init b progs) sched)}"
+    pure s!"k1={k1Fold (init b progs) own0 0 sched}"
   | ["run", b, progs, sched] => do
     let b ← b.toNat?
     let progs ← listTok progTok progs
     let sched ← schedTok sched
     let (s, labels) := sched.foldl (fun (acc : Sys × List String) tid =>
         let lbl := match acc.1.threads[tid]? with | some t => t.pc.label | none => "nothread"
-        (grant acc.1 tid, acc.2 ++ [lbl])) (init b progs, [])
+        (step acc.1 tid, acc.2 ++ [lbl])) (init b progs, [])
     let res := showList (fun (t : Thread) => showList showRes t.results |>.replace "," "+") s.threads
     pure s!"{".".intercalate labels} | {res} | visible={showVals (visible s)}"
   | _ => none
